@@ -524,15 +524,19 @@ def configs():
                          ("hist_num_ctx", "lookalike", lambda k: (hist_num(k), {"tag": k, "value": {"v": 1}})),
                          ("hist_hists", "lookalike", lambda k: hist_hists(k)),
                          ("graph", "lookalike", lambda k: (graph([[0, 1], [k, k + 1]]), {"tag": k})),
+                         # a 1-d histogram whose bin CONTENT is a list (of tuples): its bins are lists, not tuples
+                         ("hist_lists_of_tuples", "lookalike", lambda k: (histogram([0, 1, 2], [[(k, 1), (k, 2)], [(k, 3)]]), {"tag": k})),
                      ]))
     cs.append(Config("MapBins(double)", "MapBins", lambda: lena.structures.MapBins(lambda x: x * 2),
                      [("hist_num", lambda k: hist_num(k)), ("hist_num_ctx", lambda k: (hist_num(k), {"tag": k}))],
-                     generic() + [("graph", "lookalike", lambda k: graph([[0, 1], [k, k + 1]]))]))
+                     generic() + [("graph", "lookalike", lambda k: graph([[0, 1], [k, k + 1]])),
+                                  ("hist_lists_of_numbers", "lookalike", lambda k: histogram([0, 1, 2], [[k, 2], [3, 4]]))]))
     cs.append(Config("MapBins(stateful,keep_ctx)", "MapBins",
                      lambda: lena.structures.MapBins(CountingCall(), select_bins=int, drop_bins_context=False),
                      [("hist_num", lambda k: hist_num(k)), ("hist_num_ctx", lambda k: (hist_num(k), {"tag": k}))],
                      generic() + [("hist_tuples", "lookalike", lambda k: hist_tuples(k)),
-                                  ("hist_float_ctx", "lookalike", lambda k: (histogram([0, 1, 2], [k + 0.5, 1.5]), {"tag": k}))]))
+                                  ("hist_float_ctx", "lookalike", lambda k: (histogram([0, 1, 2], [k + 0.5, 1.5]), {"tag": k})),
+                                  ("hist_lists_of_ints", "lookalike", lambda k: (histogram([0, 1, 2], [[k, 2], [3, 4]]), {"tag": k}))]))
 
     # ---- IterateBins: selects histograms whose bins pass select_bins (by default: contain histograms)
     cs.append(Config("IterateBins()", "IterateBins", lambda: lena.structures.IterateBins(),
@@ -545,12 +549,16 @@ def configs():
                          ("hist_num_ctx", "lookalike", lambda k: (hist_num(k), {"variable": {"name": "x"}, "tag": k})),
                          ("hist_tuples", "lookalike", lambda k: (hist_tuples(k), {"tag": k})),
                          ("graph", "lookalike", lambda k: graph([[0, 1], [k, k + 1]])),
+                         # bins that are LISTS of histograms are not histograms
+                         ("hist_lists_of_hists", "lookalike", lambda k: (histogram([0, 1, 2], [[histogram([0, 1], [k])],
+                                                                                              [histogram([0, 1], [k + 1])]]), {"tag": k})),
                      ]))
     cs.append(Config("IterateBins(select_bins=tuple)", "IterateBins", lambda: lena.structures.IterateBins(select_bins=tuple),
                      [("hist_tuples", lambda k: hist_tuples(k)), ("hist_tuples_ctx", lambda k: (hist_tuples(k), {"tag": k}))],
                      generic() + [
                          ("hist_num", "lookalike", lambda k: hist_num(k)),
                          ("hist_hists_ctx", "lookalike", lambda k: (hist_hists(k), {"tag": k})),
+                         ("hist_lists_of_tuples", "lookalike", lambda k: histogram([0, 1, 2], [[(k, 1)], [(k, 2), (k, 3)]])),
                      ]))
 
     # ---- RunIf: selects by its Selector
